@@ -676,11 +676,14 @@ def gen_seq_case(rng, api, fmt=None):
     a, mt = api.gen_base_mesh(rng, max_points=20, allow_duplicates=False)
     api.gen_fields_simple(rng, a)
     b = meshgen.relabel(rng, a)
-    na = rng.choice([1, 2, 3])
+    na = rng.choice([1, 2, 3, 3])
     nb = na if rng.random() < 0.8 else max(1, na + rng.choice([-1, 1]))
-    ops = []
-    for _ in range(rng.randint(3, 7)):
-        ops.append({"op": rng.choice(["cmpseq", "cmpseq", "partial", "full", "cli", "holdops", "nsteps", "reopen"]),
+    # directed prefix: the caller keeps the first step of an abandoned iteration, then the sequence is iterated completely
+    # (comparison), then all steps are kept, then everything is compared again
+    ops = [{"op": "partial", "which": "A", "junit": False}, {"op": "cmpseq", "which": "A", "junit": False},
+           {"op": "full", "which": rng.choice(["A", "B"]), "junit": False}]
+    for _ in range(rng.randint(2, 5)):
+        ops.append({"op": rng.choice(["cmpseq", "cmpseq", "partial", "full", "cli", "cli", "holdops", "holdops", "nsteps", "reopen"]),
                     "which": rng.choice(["A", "B"]), "junit": rng.random() < 0.6})
     return {"kind": "xhist", "family": "seq", "fmt": fmt or rng.choice(["pvd", "pvd", "xdmf"]), "a": a, "b": b, "na": na, "nb": nb,
             "perturb": rng.choice([None, None, 0, na - 1]), "ops": ops}
@@ -738,8 +741,11 @@ def exec_seq(case, root, api):
 
         def cmpseq(sa, sb):
             out = []
-            for x, y in zip(sa, sb):
-                out.append(_summary(api, lambda x=x, y=y: MeshFieldsComparator(x, y)(fieldcomp_callback=lambda _c: None)))
+            try:
+                for x, y in zip(sa, sb):
+                    out.append(_summary(api, lambda x=x, y=y: MeshFieldsComparator(x, y)(fieldcomp_callback=lambda _c: None)))
+            except Exception as e:  # noqa: BLE001   (iterating raised: part of what this evaluation answers)
+                out.append(["X-iteration", type(e).__name__])
             return out
 
         def cli(junit, n):
@@ -971,7 +977,10 @@ EXEC = {"tab": exec_tab, "meshx": exec_meshx, "seq": exec_seq, "cli": exec_cli}
 def complaints_of(case, api):
     root = tempfile.mkdtemp(prefix="fcv_c19x_")
     try:
-        return EXEC[case["family"]](case, root, api)
+        # floating-point error state and warning filters are NOT reset between the steps of one history (a leak made by
+        # one step reaches the repetitions that follow), only after the whole history
+        with np.errstate(), warnings.catch_warnings():
+            return EXEC[case["family"]](case, root, api)
     finally:
         shutil.rmtree(root, ignore_errors=True)
 
